@@ -1,6 +1,7 @@
 """C18 — generated Rust code behaves like the VM (coverage-or-refusal + sibling primitives + name normal form)."""
 from .. import roles
 from ..callgraph import CallGraph
+from ..cfg import DefIndex
 from ..facts import KIND, callee
 from ..rules import cover
 from . import c01, prims
@@ -187,8 +188,71 @@ def rule_state_borrow(ck, facts):
     ck.floor(R, "arms_borrowing_state", n, 4)
 
 
+def generated_lines(facts, scope="::compiler::rustgen"):
+    """(function, term, text) for every piece of generated source the Rust generator writes: the decoded template of a
+    `format!` and the string constants handed to a call"""
+    from ..rules.invented import decode_template
+
+    out = []
+    for f in facts.crate(roles.LANG).fns:
+        if scope not in f.path or f.kind == "promoted" or "::test" in f.path:
+            continue
+        di = DefIndex(f)
+        for b, t in f.calls():
+            c = callee(t) or ""
+            if c.split("::")[-1] == "new" and "fmt::Arguments" in c and t[5]:
+                rr = di.resolve(t[5][0])
+                for _k in range(4):
+                    if rr[0] == "rv" and rr[1][5][0] in ("ref", "raw"):
+                        rr = di.resolve(["cp", [rr[1][5][1][0], []]])
+                    else:
+                        break
+                tmpl = decode_template(rr[1][3]) if rr[0] == "const" and rr[1][1] == "o" else None
+                if tmpl:
+                    out.append((f, t, tmpl))
+            else:
+                for a in t[5]:
+                    rr = di.resolve(a) if a[0] in ("cp", "mv") else ("const", a)
+                    for _k in range(3):
+                        if rr[0] == "rv" and rr[1][5][0] in ("ref", "raw"):
+                            rr = di.resolve(["cp", [rr[1][5][1][0], []]])
+                        else:
+                            break
+                    if rr[0] == "const" and len(rr[1]) > 2 and rr[1][1] == "s" and isinstance(rr[1][2], str) and len(rr[1][2]) > 3:
+                        out.append((f, t, rr[1][2]))
+    return out
+
+
+def rule_word_cursor(ck, facts):
+    """generated code that reads its arguments from a flat word array advances by what it read"""
+    import re
+
+    R = "C18.borrow"
+    lines = generated_lines(facts)
+    ck.floor(R, "generated_line_templates", len(lines), 100)
+    reads = {}
+    for f, t, txt in lines:
+        for m in re.finditer(r"\b([A-Za-z_][A-Za-z0-9_]*)\.\.\1 \+ \{\}", txt):
+            reads.setdefault((f.root, m.group(1)), []).append((f, t, txt))
+    n = 0
+    for (root, var), rs in sorted(reads.items()):
+        n += 1
+        adv = [(f, t, txt) for f, t, txt in lines if f.root == root and re.search(r"\b%s \+= " % re.escape(var), txt)]
+        key = "word-cursor|%s|%s" % (root.split("::")[-1], var)
+        const_adv = [(f, t, txt) for f, t, txt in adv if not re.search(r"\b%s \+= \{\}" % re.escape(var), txt)]
+        if not adv:
+            ck.bad(R, key, "%s writes code that reads `%s..%s + <width>` from a flat word array but never advances `%s`" % (root.split("::", 1)[1], var, var, var), rs[0][0].where(rs[0][1]))
+        elif const_adv:
+            f, t, txt = const_adv[0]
+            ck.bad(R, key, "%s writes code that reads `%s..%s + <width>` words per argument but advances the cursor with the fixed text `%s`: after a multi-word argument (a tuple, a record) the next argument is read from inside it — the transpiled program and the VM disagree for calls through a function value" % (root.split("::", 1)[1], var, var, txt.strip()[:40]), f.where(t))
+        else:
+            ck.ok(R, key, {"cursor": var, "reads": len(rs), "advances": len(adv)})
+    ck.floor(R, "generated_word_cursors", n, 1)
+
+
 def run(ck, facts, tier):
     rule_state_borrow(ck, facts)
+    rule_word_cursor(ck, facts)
     cg = CallGraph(facts, ["mimium_lang"])
     rule_cover(ck, facts, cg)
     ck.require("C18.prims", "mimium_rust_template" in facts.files, "anchor|template-facts", "the Rust runtime template did not compile stand-alone under the extractor (see template-build.log); its primitives cannot be compared")
